@@ -175,6 +175,7 @@ type Run struct {
 	Probe  []string                  // precedence probes: which lower-precedence path answered
 	Sentinel *ggql.Error             // FaultShared: the one instance every failing call returns
 	Seen     map[CallKey]int         // FaultSecond: invocations so far
+	OnMeet   func()                  // called by the resolver of the field meet (scheduler checks: a rendezvous between requests)
 }
 
 func NewRun(g *Graph) *Run { return &Run{G: g, Faults: map[CallKey]FaultKind{}} }
